@@ -112,7 +112,7 @@ EnvPush(i) ==
   /\ phase = "run" /\ np < MaxPush /\ count[i] < 2
   /\ Clean => (count[i] = 0 /\ \A j \in 1..(i - 1) : count[j] = 1)
   /\ LET t == IF Clean THEN S.pkts[i].t \div 1000 ELSE now
-         r1 == RX!Push(S, r, i, t, TRUE)
+         r1 == RX!Push(S, r, i, t, TRUE, FALSE)
          f == Feed(m, PushEv(r1, i, t)) IN
      r' = r1 /\ m' = f[2] /\ bad' = f[1]
   /\ count' = [count EXCEPT ![i] = @ + 1] /\ np' = np + 1 /\ UNCHANGED <<si, ci, now, phase>>
